@@ -468,6 +468,21 @@ ARGS_LOOP:
 		// handle commands and subcommands
 		for k, v := range currentProgramNode.ChildCommands {
 			if k == iterator.Value() {
+				// Unknown options and text seen so far are not lost when entering a command.
+				// In Fail mode an unknown option given at this level is an error right away,
+				// otherwise both are handed over to the command, ahead of its own.
+				if completionMode == "" {
+					if currentProgramNode.unknownMode == Fail && len(currentProgramNode.UnknownOptions) > 0 {
+						err := fmt.Errorf(text.MessageOnUnknown, currentProgramNode.UnknownOptions[0].Name)
+						return currentProgramNode, []string{}, err
+					}
+					if len(currentProgramNode.UnknownOptions) > 0 {
+						v.UnknownOptions = append(append([]*option.Option{}, currentProgramNode.UnknownOptions...), v.UnknownOptions...)
+					}
+					if len(currentProgramNode.ChildText) > 0 {
+						v.ChildText = append(append([]string{}, currentProgramNode.ChildText...), v.ChildText...)
+					}
+				}
 				currentProgramNode = v
 				continue ARGS_LOOP
 			}
